@@ -1481,7 +1481,11 @@ impl<'arena> PrettyFormatter<'arena> {
                 payload,
             ));
         }
-        let rendered = scoped.render_doc(payload.document);
+        let Ok(rendered) = scoped.try_render_doc(payload.document) else {
+            // No layout of the payload satisfies its line-start guards: fail
+            // the enclosing document as well, so that the caller reports it.
+            return RcDoc::fail();
+        };
         if rendered.contains('\n') {
             return prefix.append(self.embedded_block(&rendered));
         }
